@@ -406,8 +406,13 @@ class Report:
         ev["coverage"]["known_findings_reconfirmed"] = [k for k in self.known]
         ev["coverage"]["unconfirmed_models"] = len(self.unconfirmed)
         ev["coverage"]["inconclusive"] = self.inconclusive[:20]
-        os.makedirs(os.path.join(VERIF, "evidence"), exist_ok=True)
-        with open(os.path.join(VERIF, "evidence", self.prop + ".json"), "w") as f:
+        # development aids: a run on a patched tree (VERIF_REPO) or on a subset of the cases (VERIF_ONLY) never
+        # overwrites the evidence of the registered check
+        evdir = os.environ.get("VERIF_EVIDENCE_DIR") or os.path.join(VERIF, "evidence")
+        if os.environ.get("VERIF_ONLY") or (REPO != "/repo" and not os.environ.get("VERIF_EVIDENCE_DIR")):
+            evdir = os.path.join(tempfile.gettempdir(), "verif-dev-evidence")
+        os.makedirs(evdir, exist_ok=True)
+        with open(os.path.join(evdir, self.prop + ".json"), "w") as f:
             json.dump(ev, f, indent=1, sort_keys=True)
         for k in self.known:
             print("KNOWN-FINDING: property=%s %s" % (self.prop, k))
